@@ -60,13 +60,24 @@ def fmt_prog(p):
 def all_programs(maxw, minw=0):
     """every program of 2 or 3 non-empty threads (up to renaming of threads) whose calls amount to
     minw..maxw traced operations (set = 3, get = 2, is_set = 1)"""
-    seqs = call_seqs(maxw)
+    seqs = sorted(call_seqs(maxw), key=lambda s: (sum(WEIGHT[c] for c in s), s))
+    ws = [sum(WEIGHT[c] for c in s) for s in seqs]
     out = []
+
+    def go(start, left, nthreads, acc):
+        if nthreads == 0:
+            if maxw - left >= minw:
+                out.append(tuple(acc))
+            return
+        for j in range(start, len(seqs)):
+            if ws[j] * nthreads > left:      # seqs are sorted by weight: the remaining threads weigh at least as much
+                break
+            acc.append(seqs[j])
+            go(j, left - ws[j], nthreads - 1, acc)
+            acc.pop()
+
     for n in (2, 3):
-        for combo in itertools.combinations_with_replacement(seqs, n):
-            w = sum(WEIGHT[c] for th in combo for c in th)
-            if minw <= w <= maxw:
-                out.append(combo)
+        go(0, maxw, n, [])
     return out
 
 
@@ -82,13 +93,13 @@ def sched_bound(p):
 
 def family(tier, seed):
     """quick: EVERY program with <= 9 traced operations.  thorough: every program with <= 11, plus a
-    seeded sample of the 12-operation programs (all of them would be ~8e6 schedules)."""
+    seeded sample (about a quarter) of the 12-operation programs."""
     rng = random.Random(seed)
     if tier == "thorough":
         progs = all_programs(11)
         extra = all_programs(12, 12)
         rng.shuffle(extra)
-        budget, pick = 1_500_000, []
+        budget, pick = 8_000_000, []
         for p in extra:
             b = sched_bound(p)
             if b <= budget:
